@@ -129,7 +129,13 @@ _logging.disable(_logging.CRITICAL)
 #    __format__/__str__ in Python, format them directly under tracing instead.
 _orig_format_patch = chcore._PATCH_REGISTRATIONS[format]
 _PRIMS = (int, float, str, bytes, bool, type(None), tuple, list, dict, set, frozenset, bytearray)
+from vf import flags as _flags
+
+
 def _format(obj, format_spec=""):
+    with NoTracing():
+        if _flags.int_format_placeholder and isinstance(obj, (bl.SymbolicInt, bl.SymbolicBytes, bl.SymbolicByteArray)):
+            return '?'
     with NoTracing():
         plain_obj = not isinstance(obj, _PRIMS) and type(obj).__module__.split('.')[0] not in ('crosshair', 'z3')
     if plain_obj:
